@@ -317,3 +317,91 @@ def _dec_name(d):
     if isinstance(d, ast.Call):
         return _dec_name(d.func)
     return None
+
+
+# ---------------------------------------------------------------------------------------------
+# ownership of the state an object allocates for itself, generator discipline
+
+def init_assignments(repo, key):
+    """self.<attr> = <expr> statements of a constructor: [(attr, expr_node, class)] where class is
+    'fresh' (literal / constructor or copy call), 'param:<name>', or 'other'."""
+    fn = repo.units[key].node
+    params = set(param_names(fn))
+    out = []
+    for n in own_nodes(fn):
+        if isinstance(n, ast.Assign):
+            for t in n.targets:
+                if isinstance(t, ast.Attribute) and isinstance(t.value, ast.Name) and t.value.id == "self":
+                    v = n.value
+                    if _is_fresh_expr(v) or _is_wrapping_call(v):
+                        cls = "fresh"
+                    elif isinstance(v, ast.Name) and v.id in params:
+                        cls = "param:" + v.id
+                    elif isinstance(v, ast.Name):
+                        cls = "local:" + v.id
+                    else:
+                        cls = "other"
+                    out.append((t.attr, v, cls, n.lineno))
+    return out
+
+
+def _is_wrapping_call(v):
+    # lru_cache(1024)(f): a call whose callee is itself a call -> a new wrapper object
+    return isinstance(v, ast.Call) and isinstance(v.func, ast.Call)
+
+
+GENERATOR_CONSUMERS = {"next", "list", "any", "all", "set", "sorted", "tuple", "iter", "best_match", "chain", "enumerate", "zip", "sum", "max", "min"}
+
+
+def generator_discipline(repo, key, generator_units):
+    """The result of calling a generator function is consumed where it is created (for-loop,
+    next/list/any/best_match...) or returned; if it is bound to a local variable, the function contains
+    no `raise` (a raise would keep the frame - and with it the suspended generator - alive in the
+    traceback, delaying the finalisation that restores the resolver's scope stack).
+    -> list of problems"""
+    unit = repo.units[key]
+    fn = unit.node
+    if isinstance(fn, ast.Lambda):
+        return []
+    gen_names = {g.split(":")[1].split(".")[-1] for g in generator_units}
+    parents = {}
+    for n in own_nodes(fn):
+        for c in ast.iter_child_nodes(n):
+            parents[id(c)] = n
+    problems = []
+    has_raise = any(isinstance(n, ast.Raise) for n in own_nodes(fn))
+    for n in own_nodes(fn):
+        if not isinstance(n, ast.Call):
+            continue
+        f = n.func
+        nm = f.id if isinstance(f, ast.Name) else (f.attr if isinstance(f, ast.Attribute) else None)
+        if nm not in gen_names:
+            continue
+        # climb through `or ()` / parentheses
+        p = parents.get(id(n))
+        node = n
+        while isinstance(p, ast.BoolOp):
+            node, p = p, parents.get(id(p))
+        if isinstance(p, ast.For) and p.iter is node:
+            continue
+        if isinstance(p, ast.comprehension) and p.iter is node:
+            continue
+        if isinstance(p, ast.Call) and node in p.args:
+            pf = p.func
+            pn = pf.id if isinstance(pf, ast.Name) else (pf.attr if isinstance(pf, ast.Attribute) else None)
+            if pn in GENERATOR_CONSUMERS:
+                continue
+            problems.append("generator from %s() handed to %s() at line %d" % (nm, pn, n.lineno))
+            continue
+        if isinstance(p, (ast.Return, ast.Yield, ast.YieldFrom)):
+            continue
+        if isinstance(p, ast.withitem):
+            continue
+        if isinstance(p, ast.Assign):
+            if has_raise:
+                problems.append("generator from %s() bound to a local at line %d in a function that raises" % (nm, n.lineno))
+            continue
+        if isinstance(p, ast.Expr):
+            continue
+        problems.append("generator from %s() used in %s at line %d" % (nm, type(p).__name__, n.lineno))
+    return problems
